@@ -22,7 +22,11 @@ RULE = ("random command trees (depth <= 3) mixing short-only / long-only / short
         "Fourth pass, stream help-subcommand-paths (parser harness mode / extracted parse_top): trees of depth <= 3 with visible and hidden "
         "subcommand aliases, infer_subcommands, a flag and an option per level; lines = arguments, 0..2 descents by name / alias with arguments, then "
         "`help` (or a prefix of it under inference) + 0..3 words (name, alias, proper prefix of a name / of an alias, garbage) or --help / -h; "
-        "non-trivial when the reference reading resolves the line to a level.")
+        "non-trivial when the reference reading resolves the line to a level.  Round 5, stream help-flatten: trees of depth <= 3 with "
+        "flatten_help on the root (0.9) and on inner nodes (0.5), hidden subcommands, flag subcommands, display orders, required arguments / "
+        "groups at the parents, subcommand_required / args_conflicts_with_subcommands / subcommand_negates_reqs, global arguments; usage / short / "
+        "long at the root and -h / --help / help <path> at levels reached by a parse; the usage block is compared byte for byte; non-trivial "
+        "when the usage block has at least two lines.")
 TRUSTED = [
     "Coq 8.16.1 kernel (coqc); no native_compute; theorems C12_* are 'Closed under the global context'",
     "extraction: ExtrOcamlBasic only, no Extract Constant; OCaml driver ocaml/help_driver.ml (spec reader, printing, display_width = byte length)",
@@ -32,7 +36,8 @@ TRUSTED = [
 ]
 ASSUMPTIONS = [
     "64-bit usize; plain styles; default help template; no term-size detection (term_width is set explicitly)",
-    "domain of the model: no flatten_help, override_usage / override_help, Arg::group on the argument side, subcommand visible aliases (the generators stay inside it); argument groups, requires, the subcommand usage forms, next_help_heading, subcommand_help_heading, subcommand_value_name, custom help templates (tag dispatch; the texts of name / bin / version / author / before- / after-help are not modelled), env, defaults, (short) aliases, possible values in spec_vals and global arguments are modelled",
+    "round 5: flatten_help is modelled for the default template (usage block: exact text; flattened sections: rows); Command::build's recursions take the constant fuel tree_fuel = 64 (trees of height < 62); the flatten theorems' classes: flat_tree_ok / usage_ok / flat_distinct on the BUILT clone (boolean checkers flat_tree_okb / usage_okb / flat_distinctb), names_fresh subcommands for C12_flatten_usage_heads",
+    "domain of the model: no flatten_help together with a custom help template, no override_usage / override_help, Arg::group on the argument side, subcommand visible aliases (the generators stay inside it); argument groups, requires, the subcommand usage forms, next_help_heading, subcommand_help_heading, subcommand_value_name, custom help templates (tag dispatch; the texts of name / bin / version / author / before- / after-help are not modelled), env, defaults, (short) aliases, possible values in spec_vals and global arguments are modelled",
     "refs_ok (hypothesis of C12_padding_safe, C12_render_total, C12_usage_*, C12_template_total): group ids unique, group members are arguments, every id named by a requires rule exists -- what debug_asserts.rs checks before any rendering",
     "the generators keep `hide`n arguments out of groups and out of requires targets: a hidden member of a listed group is printed by format_group (observation C12_usage_hidden_group_member_shown, replayed on the real crate)",
     "fourth pass: the wide help-chain theorems (C12_help_flag_*_wide*, C12_help_subcommand_*) quantify over the class hsplit (inside C09's wsplit/wline): every level accepts its own arguments from a fresh matcher, levels are left through name / alias / inferred prefix / long flag-subcommand tokens, ignore_errors and args_conflicts_with_subcommands off; the *_gen forms assume the user's tree is unbuilt (tree_all unb), the help flag not disabled at the level and no subcommand of it named `--help` / `-h`",
@@ -777,6 +782,8 @@ def dec_cmd(l):
             c["sub_valname"] = s_(r[0])
         elif h == "x-template":
             c["template"] = s_(r[0])
+        elif h == "x-flatten-help":
+            c["flatten"] = True
         elif h == "sub":
             c["subs"].append(dec_cmd(r[0][1:]))
     return c
@@ -906,7 +913,9 @@ def walk(cmd, path):
     return lv, inherited
 
 
-def oracle(case, impl):
+def oracle(case, impl, flat_bound=None):
+    """`flat_bound` is given by `flatten_oracle` when the rendered level is flattened: the screen then has no
+    "Commands" section (the subcommands are checked there) and rows of other levels (the bound covers them)."""
     cmd, width, which, path = decode_case(case)
     if impl.startswith("PANIC"):
         return "rendering panicked: " + impl[:200]
@@ -925,7 +934,7 @@ def oracle(case, impl):
     if text is None:
         return "no rendered text in the result"
     # -- no unbounded padding: the longest run of spaces is bounded independently of the width
-    bound = left_bound(level)
+    bound = left_bound(level) if flat_bound is None else flat_bound
     m = re.search(r"\(maxrun (\d+)\)", impl)
     if m and int(m.group(1)) > bound:
         return "a run of %s spaces exceeds the width-independent bound %d" % (m.group(1), bound)
@@ -935,7 +944,8 @@ def oracle(case, impl):
                 for mk in arg_markers(a):
                     if mk in text:
                         return "hidden optional argument %s appears in the usage (%r)" % (a["id"], mk)
-                if "short" in a and "long" not in a and short_occurs(text, a["short"]):
+                # (a flattened usage block also carries the lines of other levels, where the same letter may be in use)
+                if flat_bound is None and "short" in a and "long" not in a and short_occurs(text, a["short"]):
                     return "hidden optional argument %s appears in the usage (-%s)" % (a["id"], a["short"])
         return None
     scr = split_screen(text)
@@ -963,6 +973,11 @@ def oracle(case, impl):
         if pos != len(want):
             return "usage line %r of the help at level %r does not name the path" % (usage, path)
     body = "\n".join(secs.get(t, "") for t in order)
+    if flat_bound is not None:
+        # a flattened screen: the absence tests by short letter are made on the level's OWN sections only (the flattened
+        # sections belong to other levels, where the same letter may be in use)
+        own = {"Arguments", "Options"} | set(a["heading"] for a in level["args"] if a.get("heading"))
+        body = "\n".join(secs.get(t, "") for t in order if t in own)
     # -- every visible argument is listed in its section
     for a in level["args"]:
         hidden = hidden_for_mode(a, use_long)
@@ -1009,7 +1024,7 @@ def oracle(case, impl):
             for mk in mks:
                 if MARKER.match(mk) and mk in text:
                     return "hidden subcommand %s: %r appears" % (s["name"], mk)
-        else:
+        elif flat_bound is None:
             blk = secs.get(level.get("sub_heading") or "Commands")
             if blk is None or not re.search(r"(?m)^  %s(?![\w-])" % re.escape(s["name"]), blk):
                 return "visible subcommand %s is not listed under %s" % (s["name"], level.get("sub_heading") or "Commands")
@@ -1386,6 +1401,262 @@ def describe_help_sub(cases):
     return d
 
 
+# --------------------------------------------------------------------------------- round 5: flatten_help
+def _flat_cond(c):
+    return bool(c.get("flatten")) and any(not s.get("hide") for s in c["subs"])
+
+
+def _mark_flatten(rng, c, p):
+    if c["subs"] and rng.random() < p:
+        c["flatten"] = True
+        c["items"].append("(x-flatten-help)")
+    for s in c["subs"]:
+        _mark_flatten(rng, s, 0.5)
+
+
+def gen_flatten(tier, rng, n):
+    """trees of depth <= 3; `flatten_help` on the root (mostly) and on inner nodes (half of them); hidden subcommands,
+    flag subcommands, display orders, required arguments / groups at the parents (they go into the usage names),
+    the settings that decide whether a level writes its own line; every kind of rendering, at the root and at levels
+    reached by a parse (those are built lazily: the shape of their `help` line differs from the one of a level that
+    `build()` builds for the rendering)"""
+    cases = []
+    for _ in range(n):
+        ctr = Ctr()
+        prof = {"nsub": [1, 2, 2, 3], "nflag": [0, 1, 2], "nopt": [0, 1, 1], "npos": [0, 0, 1, 2], "p_nohelp": 0.1,
+                "p_case_twin": 0.06, "p_heading": 0.1}
+        c = gen_cmd(rng, ctr, "p", rng.choice([1, 2, 2, 3]), prof)
+        if rng.random() < 0.5:
+            add_usage_forms(rng, ctr, c, {"p_group": 0.3, "p_requires": 0.2})
+        _mark_flatten(rng, c, 0.9)
+        sx = cmd_sx(c)
+        paths = all_paths(c)
+        flat_paths = [p for p in paths if _flat_cond(_level_of(c, p))] or paths
+        for _ in range(3):
+            w = rng.choice([0, 80, 80, 100, 120, 60, 200])
+            r = rng.random()
+            if r < 0.25:
+                wh = "usage"
+            elif r < 0.45:
+                wh = "short"
+            elif r < 0.6:
+                wh = "long"
+            else:
+                wh = which_sx(rng.choice(["flag-h", "flag-help", "sub-help"]),
+                              rng.choice(flat_paths) if rng.random() < 0.8 else rng.choice(paths))
+            cases.append(case_sx(sx, w, wh))
+    return cases
+
+
+def _level_of(c, path):
+    for p in path:
+        c = next(s for s in c["subs"] if s["name"] == p)
+    return c
+
+
+def _norm_tok(t):
+    return t.strip("{}").split("|")[0]
+
+
+def _flat_owners(level, path):
+    """(path of names, node) of every subcommand that must write a line of its own into the flattened usage of
+    `level`, by the documentation of `flatten_help`: every visible subcommand, recursively through the visible
+    subcommands that are flattened themselves (such a node writes its own line unless a subcommand is required
+    and arguments do not conflict with subcommands)"""
+    out = []
+    for s in level["subs"]:
+        if s.get("hide"):
+            continue
+        sp = path + [s["name"]]
+        if _flat_cond(s):
+            if "subcommand_required" not in s["sets"] or "args_conflicts_with_subcommands" in s["sets"]:
+                out.append((sp, s))
+            out += _flat_owners(s, sp)
+        else:
+            out.append((sp, s))
+    return out
+
+
+def _flat_sections(level, path):
+    """the visible subcommands that get a flattened section: recursively through those that have the setting"""
+    out = []
+    for s in level["subs"]:
+        if s.get("hide"):
+            continue
+        sp = path + [s["name"]]
+        out.append((sp, s))
+        if s.get("flatten"):
+            out += _flat_sections(s, sp)
+    return out
+
+
+def _hidden_markers(level, through_flat_only=True):
+    """marker names of the hidden subcommands met on the way (and of everything below them)"""
+    out = []
+    for s in level["subs"]:
+        if s.get("hide"):
+            out.append(s["name"])
+            if s.get("about"):
+                out.append(s["about"].split()[0])
+        elif s.get("flatten"):
+            out += _hidden_markers(s)
+    return out
+
+
+def _all_nodes(c):
+    return [c] + [x for s in c["subs"] for x in _all_nodes(s)]
+
+
+def _flat_split(text):
+    """sections of a flattened screen: as `split_screen`, but the unindented lines right under a heading (the about
+    that `write_flat_subcommands` writes there) belong to the section"""
+    lines = text.split("\n")
+    ui = next((i for i, l in enumerate(lines) if l.startswith("Usage:")), None)
+    i = ui
+    while i < len(lines) and lines[i].strip():
+        i += 1
+    secs, order, cur, rows_seen = {}, [], None, False
+    for l in lines[i:]:
+        if l and not l.startswith(" "):
+            if l.endswith(":"):
+                cur, rows_seen = l[:-1], False
+                order.append(cur)
+                secs.setdefault(cur, [])
+            elif cur is not None and not rows_seen:
+                pass                      # about line(s) of the section
+            else:
+                cur = None
+        elif cur is not None:
+            if l.strip():
+                rows_seen = True
+            secs[cur].append(l)
+    return {k: "\n".join(v) for k, v in secs.items()}, order
+
+
+def _long_help_exists(level):
+    """the documented rule for `--help` / `help`: long help is shown when the level has any (a long about, or an
+    argument that is not hidden and has a long help, is hidden in one of the two modes only, or has a possible value
+    with a help text); otherwise the short help is shown"""
+    if level.get("long_about"):
+        return True
+    for a in level["args"]:
+        if a.get("hide"):
+            continue
+        takes = a.get("action") in ("set", "append")
+        if a.get("long_help") or a.get("hide_long") or a.get("hide_short"):
+            return True
+        if takes and not a.get("hide_pv") and any(pv.get("help") and not pv.get("hide") for pv in a["pvs"]):
+            return True
+    return False
+
+
+def flatten_oracle(case, impl):
+    """From the property text, for a level rendered with `flatten_help`: the rendering does not panic, has no
+    unbounded padding; every visible subcommand (to the depth the flattening goes) has its usage line, starting with
+    the program name and naming the path, and its section listing every argument of its own that is visible in the
+    mode and not global; hidden subcommands, and optional arguments hidden for the mode, appear nowhere.  A level
+    that is not flattened is judged by the general oracle."""
+    cmd, width, which, path = decode_case(case)
+    if impl.startswith("PANIC"):
+        return "rendering panicked: " + impl[:200]
+    level = cmd if which in ("short", "long", "usage") else walk(cmd, path)[0]
+    if level is None or not _flat_cond(level) or not impl.startswith("ok"):
+        return oracle(case, impl)
+    bound = max(left_bound(x) for x in _all_nodes(cmd))
+    r = oracle(case, impl, flat_bound=bound)
+    if r is not None:
+        return r
+    text = impl_text(impl)
+    if which == "usage":
+        usage = text
+    else:
+        scr = split_screen(text)
+        usage = scr[1]
+    base = [cmd["name"]] + (path if which not in ("short", "long", "usage") else [])
+    known = set(x["name"] for x in _all_nodes(cmd)) | {"help"}
+    ulines = [[_norm_tok(t) for t in l.split()] for l in usage.split("\n")]
+    ulines = [(l[1:] if l and l[0] == "Usage:" else l) for l in ulines]
+    owner_of = []
+    for l in ulines:
+        names = [t for t in l if t in known]
+        owner_of.append((names[-1] if names else None, l))
+    for sp, node in _flat_owners(level, base):
+        mine = [l for (o, l) in owner_of if o == sp[-1]]
+        if not mine:
+            return "visible subcommand %s has no line in the flattened usage" % "/".join(sp)
+        two = ("subcommand_negates_reqs" in node["sets"] or "args_conflicts_with_subcommands" in node["sets"])
+        if len(mine) > (2 if two else 1):
+            return "visible subcommand %s has %d lines in the flattened usage" % ("/".join(sp), len(mine))
+        l = mine[0]
+        if not l or l[0] != cmd["name"]:
+            return "the usage line of %s does not start with the program name: %r" % ("/".join(sp), " ".join(l))
+        # the names of the path, in order
+        pos = 0
+        for t in l:
+            if pos < len(sp) and t == sp[pos]:
+                pos += 1
+        if pos < len(sp):
+            return "the usage line of %s does not name its path: %r" % ("/".join(sp), " ".join(l))
+    for mk in _hidden_markers(level):
+        if MARKER.match(mk) and mk in text:
+            return "hidden subcommand: %r appears in the flattened help" % mk
+    if which == "usage":
+        return None
+    # the mode that is rendered: the arguments of the flattened subcommands are filtered by the mode of the SCREEN
+    # (observation, docs/notes/C12.md: `--help` at a level without long help of its own renders the short mode, and a
+    # `hide_short_help` argument of a flattened subcommand is then not listed although `sub --help` lists it)
+    use_long = which == "long" or (which in ("flag-help", "sub-help") and _long_help_exists(level))
+    secs, order = _flat_split(text)
+    by_last = {}
+    for t in order:
+        toks = [_norm_tok(x) for x in t.split()]
+        names = [x for x in toks if x in known]
+        if names:
+            by_last.setdefault(names[-1], []).append(t)
+    for sp, node in _flat_sections(level, base):
+        ts = by_last.get(sp[-1], [])
+        if len(ts) != 1:
+            return "visible subcommand %s has %d flattened sections" % ("/".join(sp), len(ts))
+        blk = secs[ts[0]]
+        for a in node["args"]:
+            hidden = hidden_for_mode(a, use_long)
+            if not hidden and not a.get("global"):
+                if "long" in a:
+                    ok = re.search(r"--%s(?![\w-])" % re.escape(a["long"]), blk)
+                elif "short" in a:
+                    ok = short_occurs(blk, a["short"])
+                else:
+                    nm = a["valnames"][0] if a["valnames"] else a["id"]
+                    ok = ("<%s>" % nm) in blk or ("[%s]" % nm) in blk
+                if not ok:
+                    return "visible argument %s of %s is not listed in its flattened section" % (a["id"], "/".join(sp))
+            elif hidden and not a.get("required"):
+                for mk in arg_markers(a):
+                    if mk in blk:
+                        return "argument %s of %s is hidden for this help mode but %r appears" % (a["id"], "/".join(sp), mk)
+            for pv in a["pvs"]:
+                if pv.get("hide") and MARKER.match(pv["name"]) and pv["name"] in blk:
+                    return "hidden possible value %s of %s appears" % (pv["name"], a["id"])
+    return None
+
+
+def flatten_nontrivial(case, impl):
+    m = re.search(r"\(usagetext (x[0-9a-f]*)\)", impl)
+    return bool(m) and unhex(m.group(1)).count(b"\n") >= 1
+
+
+def describe_flatten(cases):
+    d = {"cases": len(cases)}
+    for k in ("usage", "short", "long", "flag-h", "flag-help", "sub-help"):
+        d["which=" + k] = sum(1 for c in cases if "(which %s)" % k in c or "(which (%s" % k in c)
+    d["flatten marks per case (mean)"] = round(sum(c.count("(x-flatten-help)") for c in cases) / max(1, len(cases)), 2)
+    d["nested flatten (>= 2 marks)"] = sum(1 for c in cases if c.count("(x-flatten-help)") >= 2)
+    for k in ("hide", "subcommand_required", "args_conflicts_with_subcommands", "subcommand_negates_reqs", "(short_flag",
+              "(long_flag", "(x-order", "global", "(group ", "required", "disable_help_subcommand"):
+        d["has " + k] = sum(1 for c in cases if k in c)
+    return d
+
+
 def describe(cases, name):
     d = {"cases": len(cases)}
     for k in ("short", "long", "usage", "flag-h", "flag-help", "sub-help"):
@@ -1450,6 +1721,10 @@ def streams(tier, rng):
     hsp = gen_help_sub_paths(tier, rng, 600 if q else 12000)
     out.append(Stream("help-subcommand-paths", hsp, oracle=help_sub_oracle, area="parse", project=help_sub_project,
                       nontrivial=help_sub_nontrivial, describe=describe_help_sub(hsp)))
+    # round 5, generated after everything else
+    flt = gen_flatten(tier, rng, 170 if q else 4000)
+    out.append(Stream("help-flatten", flt, oracle=flatten_oracle, area="help", project=project,
+                      nontrivial=flatten_nontrivial, describe=describe_flatten(flt)))
     return out
 
 
@@ -1469,7 +1744,7 @@ def classify_known(stream, case, impl, failure):
 
 TECHNIQUE = ("Coq proof (column arithmetic, visibility, section assembly, spec_vals non-interference of the help writer; usage line over the "
              "requirement graph with groups; tag dispatch of custom templates; help-flag and help-subcommand dispatch along subcommand chains with "
-             "arguments between the names, on the parser model) "
+             "arguments between the names, on the parser model; flatten_help: Command::build, the flattened usage block and write_flat_subcommands) "
              "+ extracted-model/implementation correspondence")
 LEVEL_TEXT = ("Machine-checked theorems (Coq 8.16, closed under the global context) about a model of help_template.rs / "
               "usage.rs that mirrors the Rust functions one by one: every unsigned subtraction and run-time format width in "
@@ -1499,12 +1774,20 @@ LEVEL_TEXT = ("Machine-checked theorems (Coq 8.16, closed under the global conte
               "an inferred prefix) returns the help of the level the path of names / aliases leads to, a word that is no exact name or alias "
               "gives InvalidSubcommand, and parse_help_subcommand's unwrap is shown dead for clap's canonicalising lookup and live for lookups "
               "that hand on the typed alias text; a hidden argument that is neither in the unrolled requirement closure nor a member of a "
-              "listed group is MENTIONED by no usage piece (own piece or inside a <a|b>), with a witness for each side of that boundary.  The "
+              "listed group is MENTIONED by no usage piece (own piece or inside a <a|b>), with a witness for each side of that boundary.  Round 5: "
+              "Command::flatten_help is modelled (Command::build with the expanded help tree and _build_bin_names_internal, the flatten branch of "
+              "write_help_usage, write_flat_subcommands): without the setting the new writer is the old one; the usage block of a flattened level is "
+              "the own line (unless subcommand_required without args_conflicts_with_subcommands) followed by exactly one line per subcommand of the "
+              "built clone that is not hidden, in order, each starting with bin name of the level + required arguments of the level + {name|--long|-s}; "
+              "under nested flattening the lines are exactly those of the nodes reached through subcommands that are not hidden (sound and complete); "
+              "the block is a function of the built clone; the flattened sections are total with bounded padding on the class flat_tree_ok, every "
+              "section belongs to a subcommand that is not hidden, every row to an argument shown in the mode and not global, and every such "
+              "subcommand / argument has its section / row (distinct names); C12_padding_safe extended to screens with flatten_help.  The "
               "model is tied to clap_builder on every run by rendering generated command trees with the real crate at widths "
               "0..200 (debug and release) and comparing sections, rows, help columns and usage tokens with the extracted model; "
               "an independent python oracle written from the property text checks the rendered text itself.")
 LEVEL_NOTE = ("Trusted: Coq kernel, extraction, OCaml driver, Rust harness, generators; core::fmt, BTreeMap, f32 comparison "
-              "(swept each run), textwrap (C20) and unicode-width are modelled or abstract; the model's domain excludes flatten_help, "
+              "(swept each run), textwrap (C20) and unicode-width are modelled or abstract; the model's domain excludes flatten_help under a custom template, "
               "usage / help overrides, subcommand aliases in help, the texts of the template tags name / bin / version / author / before- / "
               "after-help, non-ASCII names, Arg::group on the argument side.  Differential / oracle only: byte-exact layout and wrapped text, help "
               "requests on lines outside the class hsplit (levels left through -S / a short cluster, the flag read while a multi-valued positional "
@@ -1513,4 +1796,9 @@ LEVEL_NOTE = ("Trusted: Coq kernel, extraction, OCaml driver, Rust harness, gene
               "that contains the generated help argument, with the necessary side condition that no subcommand answers to `--help` / `-h`.  Observations (not defect fixes): a default value naming "
               "a hidden possible value is printed in [default: ..]; a hidden member of a listed group is printed in the usage line <a|b> (recorded "
               "finding; C12_usage_hidden_listed_member_mentioned), and a hidden argument that a required argument `requires` is printed on its own "
-              "(C12_usage_hidden_required_target_mentioned).")
+              "(C12_usage_hidden_required_target_mentioned).  Round 5: the flatten theorems are stated on the built clone (h_build c = Some b is a "
+              "hypothesis where the statement needs b; totality of build() itself and the fuel bound tree_fuel are differential: stream help-flatten "
+              "compares the usage block byte for byte on trees of depth <= 3); observations: the flattened sections are filtered by the mode of the "
+              "SCREEN (`--help` at a level without long help of its own hides a subcommand's hide_short_help argument), a global argument declared at "
+              "a flattened subcommand is listed nowhere in the parent's flattened help, and the generated help subcommand appears in one of two "
+              "shapes (C11-flatten-help-subcommand-shape).")
